@@ -168,26 +168,28 @@ Decide(c, r) ==
 (* response-producing filter calls SetOutputResponse with a new object: the adaptor's headers are dropped            *)
 (* (ResponderReplaces = TRUE; ActualGrantReachesClient refuted by TLC and on a real Pipeline: finding                *)
 (* cors-actual-headers-replaced).                                                                                    *)
-ClientSees(c, r) ==
-    LET d == Decide(c, r) IN
+ClientSeesD(d) ==
     IF d.res = "preflighted" THEN [backend |-> FALSE, status |-> d.resp.status, vary |-> d.resp.vary, h |-> d.resp.h]
     ELSE IF ResponderReplaces \/ ~d.hasResp THEN [backend |-> TRUE, status |-> 200, vary |-> <<>>, h |-> NoHeaders]
     ELSE [backend |-> TRUE, status |-> 200, vary |-> d.resp.vary, h |-> d.resp.h]
 
 -----------------------------------------------------------------------------
-VARIABLES cfg, req
-vars == <<cfg, req>>
+ClientSees(c, r) == ClientSeesD(Decide(c, r))
+VARIABLES cfg, req,
+          dec      \* Decide(cfg, req), computed once per case
+vars == <<cfg, req, dec>>
 NoReq == [method |-> <<>>, origin |-> <<>>, acrm |-> <<>>, acrh |-> <<>>]
 (* Full = FALSE prunes the request dimensions that cannot matter: Access-Control-Request-Method is varied only for   *)
 (* OPTIONS (one value elsewhere, to show that it is ignored), Access-Control-Request-Headers only for pre-flights    *)
 Relevant(r) == \/ Full
                \/ r.method = M_opt /\ (r.acrm = <<>> => r.acrh = <<>>)
                \/ r.method # M_opt /\ r.acrm \in {<<>>, M_get} /\ r.acrh \in {<<>>, R_tok}
-Init == cfg \in Configs /\ req = NoReq
-Next == req = NoReq /\ req' \in {r \in Requests : Relevant(r)} /\ cfg' = cfg
+Init == cfg \in Configs /\ req = NoReq /\ dec = Decide(cfg, NoReq)
+Next == req = NoReq /\ req' \in {r \in Requests : Relevant(r)} /\ cfg' = cfg /\ dec' = Decide(cfg, req')
 Spec == Init /\ [][Next]_vars
 
-D == Decide(cfg, req)
+D == dec
+DecisionIsDecide == dec = Decide(cfg, req)
 Decided == req # NoReq
 AnyAllow(h) == h.acao # <<>> \/ h.acam # <<>> \/ h.acah # <<>> \/ h.acac \/ h.acma # 0 \/ h.aceh # <<>>
 
@@ -216,11 +218,10 @@ ExtrasOnlyWithOrigin == /\ D.resp.h.acac => (cfg.cred /\ D.resp.h.acao # <<>>)
                         /\ D.resp.h.acah # <<>> => D.resp.h.acam # <<>>
 (* composition: with supportCORSRequest an allowed actual CORS request gets its Access-Control-Allow-Origin, R's answer included *)
 ActualGrantReachesClient == (cfg.support /\ ~IsPreflight(req) /\ ActualGranted(cfg, req)) =>
-                               (ClientSees(cfg, req).h.acao # <<>> /\ ClientSees(cfg, req).backend)
-PreflightNeverReachesBackend == (IsPreflight(req) /\ (req.origin # <<>> \/ ~cfg.support)) => ~ClientSees(cfg, req).backend
+                               (ClientSeesD(D).h.acao # <<>> /\ ClientSeesD(D).backend)
+PreflightNeverReachesBackend == (IsPreflight(req) /\ (req.origin # <<>> \/ ~cfg.support)) => ~ClientSeesD(D).backend
 (* the classes of the table (vacuity: props/x06.py requires every class among the replayed cases) *)
-ClassOf(c, r) ==
-    LET d == Decide(c, r) IN
+ClassOf(c, r, d) ==
     IF ~d.hasResp THEN "pass"
     ELSE IF IsPreflight(r) THEN (IF d.resp.h.acao # <<>> THEN "preflight-granted"
                                  ELSE IF r.origin = <<>> THEN "preflight-no-origin"
